@@ -182,6 +182,7 @@ func runC08(cases string, res *Result) {
 	current.Store(Case{})
 	c08MemoryGuard(res, &current)
 	positions := c08PositionTable()
+	c08TextThatIsNoNumber(res)
 	n := 0
 	readCases(cases, func(c Case) {
 		n++
